@@ -1,6 +1,6 @@
 /-
-  Y0.Lemmas.CtfTrCondDstarClass — **conjunct (e) of `ctfTRSoundClass` is implied by `ctfTRLinkClass`**: for a validated
-  conditional query in the graph-and-query class `ctfTRLinkClass`, the simplified derived event `D_*` of line 2 of
+  Y0.Lemmas.CtfTrCondDstarClass — **the class `ctfTRSoundClass` needs no clause about Algorithm 2's class**: for a validated
+  conditional query in the graph-and-query class `ctfTRSoundClass`, the simplified derived event `D_*` of line 2 of
   Algorithm 3 (valueless items filled) is in the class `ctfSoundClass` of Algorithm 2's value theorem.
 
   Why: `D_*` is the ctf-factor form of the members of the ancestral components that hold an outcome; in the class the
@@ -12,7 +12,6 @@
     `LinkClass.flat_consistent`   a member of a component carries consistent subscripts (they are among its root's);
     `minimize_factorForm`         minimising a ctf-factor-form variable keeps every subscript;
     `dstar_in_ctfSoundClass`      the theorem;
-    `ctfTRSoundClass_eq_link`     so, for an answered validated query, `ctfTRSoundClass = ctfTRLinkClass`.
 -/
 import Y0.Lemmas.CtfTrCondLink3
 import Y0.Lemmas.CtfTrCondJ
@@ -49,10 +48,10 @@ theorem minimize_factorForm (g : MG Name) (v k : Var) (hm : minimize g v = .ok k
     subst hkv
     exact ⟨rfl, rfl, fun h => h, fun _ => Iff.rfl⟩
 
-/-- **the simplified derived event of a query in `ctfTRLinkClass` is in the class of Algorithm 2's value theorem** -/
+/-- **the simplified derived event of a query in `ctfTRSoundClass` is in the class of Algorithm 2's value theorem** -/
 theorem dstar_in_ctfSoundClass (target : MG Name) (ds : List Domain) (o c : Event)
     (hv : validateC target ds o c = .ok ()) (hwf : target.WF) (hplain : EventVarsPlain (o ++ c))
-    (hcls : ctfTRLinkClass target o c = true)
+    (hcls : ctfTRSoundClass target o c = true)
     (dstar : Event) (dNames : List Name) (h2 : line2C target o c = .ok (dstar, dNames))
     (q : Expr) (simplified : Event) (hu : ctfTRu target ds dstar = .ok (some (q, some simplified))) :
     ctfSoundClass target (fillEvent simplified) = .ok true := by
@@ -157,28 +156,7 @@ theorem dstar_in_ctfSoundClass (target : MG Name) (ds : List Domain) (o c : Even
       rw [hvv, hm'] at hm
       exact (Except.ok.inj hm).symm
 
-/-- **(e) can be dropped**: for a validated query whose derived event Algorithm 2 answers, the class of the value theorem
-of Algorithm 3 is the graph-and-query class -/
-theorem ctfTRSoundClass_eq_link (target : MG Name) (ds : List Domain) (o c : Event)
-    (hv : validateC target ds o c = .ok ()) (hwf : target.WF) (hplain : EventVarsPlain (o ++ c))
-    (dstar : Event) (dNames : List Name) (h2 : line2C target o c = .ok (dstar, dNames))
-    (q : Expr) (simplified : Event) (hu : ctfTRu target ds dstar = .ok (some (q, some simplified))) :
-    ctfTRSoundClass target ds o c = ctfTRLinkClass target o c := by
-  unfold ctfTRSoundClass
-  cases hcls : ctfTRLinkClass target o c with
-  | false => rfl
-  | true =>
-    simp only [h2, hu, Bool.true_and]
-    rw [dstar_in_ctfSoundClass target ds o c hv hwf hplain hcls dstar dNames h2 q simplified hu]
-
-end Y0.CtfTr
-
-/-! ### non-vacuity: `X → Y`, the query `P(Y = y | X = x)` of Y0/Lemmas/CtfTrCondJ.lean: every hypothesis holds -/
-
-namespace Y0.CtfTr
-open Fscm Ctf
-
-theorem exJ_linkClass : ctfTRLinkClass exFG exJO exJC = true := by decide +kernel
+theorem exJ_linkClass : ctfTRSoundClass exFG exJO exJC = true := by decide +kernel
 
 example : ctfSoundClass exFG (fillEvent exFEv) = .ok true :=
   dstar_in_ctfSoundClass exFG [exFDom] exJO exJC exJ_validated exJ_wf exJ_plain exJ_linkClass exFEvent [1] exJ_line2
